@@ -311,6 +311,11 @@ func (g *G) stringText() string {
 	if g.chance(g.P.PNonASCII) {
 		return g.pick([]string{"café", "日本", "naïve key", "ключ", "€uro"})
 	}
+	if g.chance(0.06) {
+		// a backslash is an ordinary character of a string literal, \" keeps the literal open; a
+		// literal ending in a backslash is well formed when no other quote follows on its line
+		return g.pick([]string{`a\b`, `say \"hi\"`, `dir\`, `\\`, `\n`})
+	}
 	return g.pick([]string{"k", "fee", "owner", "hello world", "", "a-b_c"})
 }
 
@@ -860,7 +865,7 @@ func Generate(r *rand.Rand, p Profile) *G {
 		g.Prog.Trailer = g.pick([]string{"// end", "// fin du script", "/* done */", "// "})
 	}
 	if g.chance(p.PCompact) {
-		g.Prog.Style = 1
+		g.Prog.Style = 1 + g.R.IntN(2)
 		g.Prog.Trailer = ""
 		for i := range g.Prog.Stmts {
 			g.Prog.Stmts[i].Comment = "" // line comments need their own line
